@@ -94,13 +94,28 @@ fn model_apply(m: &mut ModModel, mode: &mut HandleControl, op: &Op) {
 
 /// BFS closure of the real decoder's state graph; state identity = Debug rendering of the Keyboard.
 fn closure(uni: &[KeyCode], rep: &mut Report) -> BTreeMap<String, Vec<Op>> {
+    // State identity = Debug rendering of the whole Keyboard, so that any hidden flag is explored too.  If that graph
+    // is larger than RENDER_CAP (e.g. a tree that carries a counter which has no influence on behaviour), fall back
+    // to the identity the property talks about – (reported modifiers, Ctrl mode) – which has at most 1024 values.
+    const RENDER_CAP: usize = 4096;
+    if let Some(st) = closure_by(uni, RENDER_CAP, &|kb: &Kb| format!("{:?}", kb)) {
+        return st;
+    }
+    rep.notes.push(format!(
+        "the decoder's Debug rendering takes more than {} values (state beyond modifiers and mode); closure taken over (get_modifiers(), get_ctrl_handling()) instead, hidden state is exercised by the hostile histories",
+        RENDER_CAP
+    ));
+    closure_by(uni, BFS_CAP, &|kb: &Kb| format!("{}|{}", mods_str(bits_from_mods(kb.get_modifiers())), mode_str(kb.get_ctrl_handling()))).unwrap_or_default()
+}
+
+fn closure_by(uni: &[KeyCode], cap: usize, ident: &dyn Fn(&Kb) -> String) -> Option<BTreeMap<String, Vec<Op>>> {
     // BFS ops: only the nine modifier keys can possibly matter for reachability, but all keys are
     // driven in the transition sweep; here every op is tried so that a hidden dependency on another key is found too.
     let ops = all_event_ops(uni);
     let mut states: BTreeMap<String, Vec<Op>> = BTreeMap::new();
     let mut queue: VecDeque<Vec<Op>> = VecDeque::new();
     let (kb0, _) = kb_fresh();
-    states.insert(format!("{:?}", kb0), vec![]);
+    states.insert(ident(&kb0), vec![]);
     queue.push_back(vec![]);
     while let Some(path) = queue.pop_front() {
         for op in &ops {
@@ -110,13 +125,12 @@ fn closure(uni: &[KeyCode], rep: &mut Report) -> BTreeMap<String, Vec<Op>> {
                     kb_apply(&mut kb, p);
                 }
                 kb_apply(&mut kb, op);
-                format!("{:?}", kb)
+                ident(&kb)
             });
             if let Ok(name) = r {
                 if !states.contains_key(&name) {
-                    if states.len() >= BFS_CAP {
-                        rep.notes.push("state graph exceeded the BFS cap".into());
-                        return states;
+                    if states.len() >= cap {
+                        return None;
                     }
                     let mut p2 = path.clone();
                     p2.push(*op);
@@ -126,7 +140,7 @@ fn closure(uni: &[KeyCode], rep: &mut Report) -> BTreeMap<String, Vec<Op>> {
             }
         }
     }
-    states
+    Some(states)
 }
 
 // =================================================================== C04
